@@ -20,7 +20,8 @@
 //   for                  for (int &v : gen) ...                    -> for v:1 v:2 end | ... exc | nomore
 //   complete <k> | tcomplete <k>             awaited operation k finishes, on the consumer thread | on a second thread (joined)
 //   destroy              destroy the generator object              -> destroy
-//   end                  completes whatever is still awaited, destroys everything -> end made=<guards> once=<destroyed exactly once> multi=<more than once>
+//   end                  completes whatever is still awaited, destroys everything
+//                                     -> end made=<guards> once=<destroyed exactly once> multi=<more than once> fut=<content of the last future>
 //
 // Blocking accesses (next, iterators, range-for, fwait) of a body that is parked on a pending operation are served by a helper
 // thread that completes exactly the awaited operation (`helped=<k>`); so the body, and everything it resumes, then runs on that
@@ -453,13 +454,14 @@ struct Case {
                 gone = true;
                 it.reset();
                 gen.reset();
+                std::string fs = fut ? item_of(*fut) : "none";
                 fut.reset();
                 int once = 0, multi = 0;
                 for (int d : tab.dtor) {
                     once += d == 1;
                     multi += d > 1;
                 }
-                head << " made=" << tab.dtor.size() << " once=" << once << " multi=" << multi;
+                head << " made=" << tab.dtor.size() << " once=" << once << " multi=" << multi << " fut=" << fs;
                 vh::emit(head.str(), evs);
                 for (int k = 0; k < NK; ++k) aw.complete(k);   // nothing may be left awaiting them
                 return;
@@ -477,7 +479,9 @@ struct Case {
                 if (!fut) head << " nofut";
                 else if (op == "fget") head << " " << item_of(*fut);
                 else if (op == "fwait") {
-                    Blocking blk;
+                    // the helper thread serves the body only if this wait really blocks
+                    std::optional<Blocking> blk;
+                    if (!fut->ready()) blk.emplace();
                     try {
                         int &v = fut->wait();
                         head << " v:" << v;
@@ -506,7 +510,8 @@ struct Case {
                 else if (inflight()) head << " busy";
                 else {
                     try {
-                        head << " v:" << **it;
+                        int &v = **it;
+                        head << " v:" << v;
                     } catch (const test_exc &) {
                         head << " exc";
                     } catch (const value_not_ready_exception &) {
@@ -579,7 +584,9 @@ struct Case {
                     Blocking blk;
                     try {
                         auto st = (*it)++;
-                        head << " v:" << *st << " " << (*it != gen->end() ? "true" : "false");
+                        // (storage::operator* / operator-> of iterator.h do not compile when instantiated: they return
+                        //  non-const references to a member from const functions; the stored value is read directly)
+                        head << " v:" << st._v << " " << (*it != gen->end() ? "true" : "false");
                     } catch (const test_exc &) {
                         head << " exc";
                     } catch (const value_not_ready_exception &) {
